@@ -22,7 +22,8 @@ class JsonRefError(Exception):
 
 
 def is_grid_obj(o):
-    return isinstance(o, dict) and {'meta', 'cols'} <= set(o) and isinstance(o.get('meta'), dict) and 'ver' in o['meta']
+    # (a value with all three of meta, cols, rows is a nested grid; the generators never build such a dict)
+    return isinstance(o, dict) and {'meta', 'cols', 'rows'} <= set(o)
 
 
 def read_value(x, v3, path='', strict=True):
